@@ -43,7 +43,7 @@ def plan(tier, seed):
 
 def required(tier):
     from vlib.gridwork import KINDS
-    cl = [f'geom:{k}' for k in KINDS] + ['history:regridded-after-many-other-trajectories', 'gridder:object-switched-to-another-grid', 'trajectory:more-than-65536-points', 'axes:alt+time', 'axes:', 'res:fine', 'res:medium',
+    cl = [f'geom:{k}' for k in KINDS] + ['history:regridded-after-many-other-trajectories', 'gridder:object-switched-to-another-grid', 'trajectory:more-than-65536-points', 'entry-point:older', 'entry-point:older:antimeridian', 'entry-point:older:antimeridian:time-without-altitude', 'axes:alt+time', 'axes:', 'res:fine', 'res:medium',
                                          'res:coarse', 'segment:zero-length',
                                          'segment:zero-length-in-three-or-more-cells',
                                          'segment:antimeridian', 'segment:many-crossings',
@@ -147,6 +147,9 @@ def judge(c, rec, Mismatch):
         rec.cls('integrated:integer-typed')
     if getattr(c, 'reused_gridder', False):
         rec.cls('gridder:object-switched-to-another-grid')
+    rec.cls('entry-point:' + ('older' if c.route != 'grid_trajectory' else 'grid_trajectory')
+            + (':antimeridian' if c.cross_seg is not None else '')
+            + (':time-without-altitude' if c.tim_g is not None and c.alt_g is None else ''))
     rec.cls(f'geom:{c.kind}', f'res:{c.grid["bucket"]}', f'axes:{c.desc["axes"]}',
             f'combo:{c.kind}:{c.grid["bucket"]}:{c.desc["axes"]}')
 
